@@ -876,6 +876,97 @@ def check_C15(cx):
                   "buffer fill; then seeded random longer histories; distinct = distinct histories" % (maxlen, len(alphabet)))
 
 
+def corpus_lines(g, impl, n_random, opts=(14,)):
+    """accepted canonical lines: the representative set plus generated valid lines (only those the
+    implementation accepts), as (opt, str)"""
+    cand = [l.decode() for l in cases.REPR_LINES + cases.LONG_LINES]
+    tries = 0
+    while len(cand) < len(cases.REPR_LINES) + n_random and tries < 20 * n_random:
+        tries += 1
+        l = g.valid_line()
+        if all(32 <= ord(c) < 127 for c in l) and ";" not in l and ":" not in l:
+            cand.append(l)
+    res = impl_line_results(impl, [(o, l.encode()) for o in opts for l in cand])
+    return [(o, l) for o in opts for l in cand if res[(o, l.encode())][0] == "0" and res[(o, l.encode())][1] != "-"], res
+
+
+def is_mov_r64_imm(line):
+    m = re.match(r"\s*mov\s+(r[a-z0-9]+)\s*,\s*-?(0x)?[0-9a-f]+\s*$", line.strip().lower())
+    return bool(m) and not m.group(1).endswith(("d", "w", "b"))
+
+
+def check_C16(cx):
+    thms = ["AL.Properties.C16." + t for t in ["case_insensitive", "comment_irrelevant", "leading_blanks", "operand_blanks", "skipped",
+            "skipped_lines", "crlf"]] + ["AL.Lemmas.filterGo_case", "AL.Lemmas.filterGo_comment", "AL.Lemmas.filterGo_deblank",
+            "AL.Lemmas.assembleLine_of_filter"]
+    info = stage_proofs(cx, "AL.Properties.C16", thms)
+    impl = build_impl(cx)
+    if not (info and impl):
+        return finish(cx, "")
+    g = cases.Gen(cx.seed, info["tables"])
+    r = g.r
+    try:
+        corpus, res0 = corpus_lines(g, impl, 1500 if cx.tier == "quick" else 8000, opts=(14, 0, 5))
+    except ImplCrash as e:
+        cx.violations.append({"kind": "crash", "op": e.op, "stderr": e.err[-1500:]})
+        return finish(cx, "")
+    nstyles = 8 if cx.tier == "quick" else 64
+    lines = []       # (opt, canonical, styled)
+    for opt, l in corpus:
+        smart_mov = is_mov_r64_imm(l) and (opt & 2)
+        for _ in range(nstyles):
+            lines.append((opt, l, cases.restyle(l, r, numbers=not smart_mov)))
+    ops, out = tie_lines(cx, impl, [(o, s.encode("latin1")) for o, _, s in lines], "C16 styled lines (whole per-line pipeline)")
+    nviol, ndiff = 0, 0
+    for (opt, canon, styled), o in zip(lines, out):
+        p = o.split()
+        want = res0[(opt, canon.encode())]
+        got = (p[0], p[2] if p[0] == "0" else "-")
+        if styled != canon:
+            ndiff += 1
+        if got != want and nviol < 5:
+            nviol += 1
+            cx.violations.append({"kind": "style", "opt": opt, "canonical": canon, "styled": styled, "canonical_bytes": want[1],
+                                  "styled_result": list(got), "what": "a rewriting of case/blanks/comment/number base changed the result"})
+    # programs: skipped lines inserted at every position, LF vs CRLF vs CR
+    hists, meta = [], []
+    for _ in range(150 if cx.tier == "quick" else 1500):
+        opt = r.choice([14, 0, 5])
+        body = [l for o, l in (r.choice(corpus) for _ in range(r.choice([1, 2, 4]))) if True]
+        body = [l.encode() for l in body]
+        for pos in range(len(body) + 1):
+            ins = r.choice(cases.SKIP_LINES)
+            eol = r.choice([b"\n", b"\r\n", b"\r"])
+            t_plain = b"\n".join(body)
+            t_ins = eol.join(body[:pos] + [ins] + body[pos:]) + r.choice([b"", eol])
+            setopt = ["S 0 mov %d" % (opt & 3), "S 0 swap %d" % ((opt >> 2) & 1), "S 0 nobase %d" % ((opt >> 3) & 1)]
+            h = ["N 0 300 cc"] + setopt + ["A 0 %s" % cases.hexs(t_plain), "G 0", "D 0 0 300", "O 0 0",
+                 "A 0 %s" % cases.hexs(t_ins), "G 0", "D 0 0 300", "F 0"]
+            hists.append(h)
+            meta.append((opt, t_plain, t_ins))
+    ops2, out2 = tie_api_mod_lf(cx, impl, hists, "C16 programs with skipped lines / CRLF")
+    pos = 0
+    for m, h in zip(meta, hists):
+        o = out2[pos:pos + len(h)]
+        pos += len(h)
+        if len(o) < len(h):
+            break
+        if (o[4], o[5], o[6]) != (o[8], o[9], o[10]) and nviol < 8:
+            nviol += 1
+            cx.violations.append({"kind": "style-program", "opt": m[0], "plain": m[1].decode("latin1"), "rewritten": m[2].decode("latin1"),
+                                  "plain_result": [o[4], o[5]], "rewritten_result": [o[8], o[9]],
+                                  "what": "inserting a comment/label/section/global/blank line or changing the line terminator changed the code"})
+    cx.nontrivial.update((o, s) for o, _, s in lines)
+    cx.cov["samples"] = [list(lines[1]), list(lines[len(lines) // 2]), [x[:120] for x in hists[0]]]
+    cx.dist = {"canonical_lines": len(corpus), "styles_per_line": nstyles, "styled_lines_different_from_canonical": ndiff,
+               "programs": len(hists)}
+    return finish(cx, "every accepted line of the corpus (107 representative + generated valid lines over all mnemonics and formats, 3 option "
+                  "bytes) under %d seeded rewritings each (letter case, blanks/tabs at every legal position, trailing comments, hex digit case, "
+                  "decimal<->hex and leading zeros except for `mov r64, imm` under SMART), compared with the canonical line's result on the "
+                  "implementation; programs with comment/label/section/global/blank lines inserted at every position and LF/CRLF/CR; "
+                  "distinct = distinct (options, styled text)" % nstyles)
+
+
 def history_around(ops, idx):
     """the ops of the history that contains op number idx (a history starts at its first N op
     after an F op or at the beginning)"""
@@ -888,7 +979,7 @@ def history_around(ops, idx):
     return ops[start:end + 1]
 
 
-CHECKS = {"C12": check_C12, "C07": check_C07, "C06": check_C06, "C13": check_C13, "C14": check_C14, "C08": check_C08, "C15": check_C15}
+CHECKS = {"C12": check_C12, "C07": check_C07, "C06": check_C06, "C13": check_C13, "C14": check_C14, "C08": check_C08, "C15": check_C15, "C16": check_C16}
 
 
 def run_check(prop, tier, seed):
